@@ -13,9 +13,17 @@ package jet
 //@ modset Interp := ghost CM, ghost NL, type Runtime.scope, type Runtime.context, type Runtime.content, type escapeeWriter.Writer, mapsof VarMap, ghost T, type sliceRanger.i, type sliceRanger.v, type mapRanger.iter, type mapRanger.hasMore, type chanRanger.v, type intsRanger.i, type intsRanger.val, mapsof map[reflect.Type]map[string][]int
 
 //@ pred RtOK(st *Runtime) := st != nil && st.scope != nil && st.escapeeWriter != nil && st.escapeeWriter.set != nil && st.escapeeWriter.set.gmx != nil && SetOK(st.escapeeWriter.set) && st.escapeeWriter.Writer != nil
-// RtX: what is known of the runtime when a construct is left by a panic: everything but the scope chain, which is
-// whatever the failing construct left (scopes pushed without a defer are not popped; there is no ghost depth counter)
-//@ pred RtX(st *Runtime) := st != nil && st.escapeeWriter != nil && st.escapeeWriter.set != nil && st.escapeeWriter.set.gmx != nil && SetOK(st.escapeeWriter.set) && st.escapeeWriter.Writer != nil
+// RtX: what is known of the runtime when a construct is left by a panic: the scope chain is whatever the failing
+// construct left (scopes pushed without a defer are not popped), but never shorter than at entry
+//@ pred RtX(st *Runtime) := st != nil && st.escapeeWriter != nil && st.escapeeWriter.set != nil && st.escapeeWriter.set.gmx != nil && SetOK(st.escapeeWriter.set) && st.escapeeWriter.Writer != nil && st.scope != nil && Desc(st.scope, old(st.scope))
+// Desc(a, b): scope a is b or was pushed (transitively) on top of b. Scopes are never popped below the scope a
+// construct was entered with, also when it is left by a panic (deferred releases only undo pushes of their own function).
+//@ ufunc Desc(*scope, *scope) bool
+//@ axiom forallT(a, "*scope", Desc(a, a))
+//@ axiom forallT(a, "*scope", forallT(b, "*scope", Desc(a, b) && a != b ==> a != nil && a.parent != nil && Desc(a.parent, b)))
+//@ axiom forallT(a, "*scope", forallT(b, "*scope", a != nil && a.parent != nil && Desc(a.parent, b) ==> Desc(a, b)))
+//@ axiom forallT(a, "*scope", a != nil && a.parent != nil ==> Desc(a, a.parent))
+//@ axiom forallT(a, "*scope", forallT(b, "*scope", forallT(c, "*scope", Desc(a, b) && Desc(b, c) ==> Desc(a, c))))
 // S(st): the interpreter state that enclosing constructs must leave as they found it.
 //@ pred SameS(st *Runtime) := st.scope == old(st.scope) && st.context == old(st.context) && st.content == old(st.content) && st.escapeeWriter.Writer == old(st.escapeeWriter.Writer)
 
@@ -110,7 +118,7 @@ package jet
 
 //@ func (*Runtime).releaseScope
 //@   props C07 C13 C09 C12
-//@   requires st != nil
+//@   requires st != nil && st.scope != nil
 //@   modifies st.scope
 //@   nopanic
 //@   ensures [release-pops-one-scope] st.scope == old(st.scope.parent)
@@ -467,7 +475,7 @@ package jet
 //@   props C14 C17
 //@   requires a != nil
 //@   nopanic
-//@   ensures [piped-value-counts-as-first-argument] result == len(a.args.Exprs) + ite(Implicit(a), 1, 0)
+//@   ensures [piped-value-counts-as-first-argument] result == len(a.args.Exprs) + ite(Implicit(a), 1, 0) && result >= 0
 //@ func (*Arguments).IsSet
 //@   props C17 C14 C18
 //@   requires a != nil && RtOK(a.runtime) && WFArgs(a.args)
@@ -475,6 +483,7 @@ package jet
 //@   nopanic
 //@   ensures [out-of-range-arguments-are-unset] argumentIndex < 0 || argumentIndex >= len(a.args.Exprs) + ite(Implicit(a), 1, 0) ==> result == false
 //@   ensures [implicit-piped-argument-is-set] argumentIndex == 0 && Implicit(a) ==> result == true
+//@   ensures [runtime-valid-after-isset] RtX(a.runtime)
 //@   callsite (*Runtime).isSet 0 requires [isset-examines-the-indexed-argument] {C17} node == a.args.Exprs[caller.argumentIndex - ite(Implicit(a), 1, 0)] && NTF(node) != NodeUnderscore
 //@   callsite (*Runtime).isSet count 1
 //@ func (*Arguments).Get
@@ -746,6 +755,9 @@ package jet
 //@ axiom forallT(t, "reflect.Type", forallT(k, "int", ParamT(t, k) == ite(TVariadic(t) && k >= TNumIn(t) - 1, TElem(TIn(t, TNumIn(t) - 1)), TIn(t, k))))
 //@ axiom forallT(v, "reflect.Value", forallT(t, "reflect.Type", RvTypeOf(RvConv(v, t)) == t && TAssign(t, t)))
 //@ axiom forallT(i, "interface{}", istype(i, "bool") ==> RvValid(RvOf(i)) && RvKind(RvOf(i)) == 1 && RvBool(RvOf(i)) == as(i, "bool"))
+//@ immutable {C14,C12} global stringType
+// reflect.ValueOf(make(map[string]interface{})): a non-nil map keyed by string whose elements may be anything
+//@ axiom forallT(i, "interface{}", istype(i, "map[string]interface{}") ==> RvKeyType(RvTypeOf(RvOf(i))) == stringType && (refof(i) != 0 ==> !RvIsNil(RvOf(i))) && forallT(t, "reflect.Type", TAssign(t, TElem(RvTypeOf(RvOf(i))))))
 //@ axiom funcType != nil && cachedStructsFieldIndex != nil && ioutil.Discard != nil
 //@ axiom forallT(v, "reflect.Value", RvKind(v) == 19 && !RvIsNil(v) && istype(RvInterface(v), "Func") ==> as(RvInterface(v), "Func") != nil)
 //@ axiom forallT(t, "reflect.Type", forallT(u, "reflect.Type", TKind(t) == 23 && TKind(TElem(t)) == 8 && TKind(u) == 24 ==> TConv(t, u)))
@@ -769,7 +781,7 @@ package jet
 //@   props C17 C12
 //@   requires RtOK(a.runtime) && WFArgs(a.args)
 //@   modifies @Interp
-//@   loop 0 invariant 0 <= i && visits("(*Arguments).IsSet", 0) == i && i <= len(a.args.Exprs) + ite(a.pipedVal != nil && !a.args.HasPipeSlot, 1, 0)
+//@   loop 0 invariant RtOK(a.runtime) && WFArgs(a.args) && 0 <= i && visits("(*Arguments).IsSet", 0) == i && i <= len(a.args.Exprs) + ite(a.pipedVal != nil && !a.args.HasPipeSlot, 1, 0)
 //@   loop 0 entry [isset-examines-every-argument] {C17} i == 0
 //@   callsite (*Arguments).IsSet 0 requires [isset-examines-every-argument-in-turn] {C17} argumentIndex == caller.i
 //@   callsite (*Arguments).IsSet count 1
@@ -798,7 +810,7 @@ package jet
 //@   modifies @Interp
 //@   anypanic
 //@   exsures RtX(a.runtime)
-//@   loop 0 invariant RtOK(a.runtime) && 0 <= i
+//@   loop 0 invariant RtOK(a.runtime) && 0 <= i && a.runtime.scope == old(a.runtime.scope)
 //@   callsite (reflect.Value).SetMapIndex 0 requires [map-stores-under-the-converted-key] {C14} key == lastret("(reflect.Value).Convert", 0) && elem == lastret("(*Arguments).Get", 0)
 //@   callsite (*Arguments).Get 0 requires [map-keys-are-the-even-arguments] {C14} argumentIndex == caller.i
 //@   callsite (*Arguments).Get 1 requires [map-values-follow-their-keys] {C14} argumentIndex == caller.i + 1
@@ -810,7 +822,7 @@ package jet
 //@   modifies @Interp
 //@   anypanic
 //@   exsures RtX(a.runtime)
-//@   loop 0 invariant RtOK(a.runtime) && 0 <= i && len(arr) == lastret("(*Arguments).NumOfArguments", 0) && fresh(arr)
+//@   loop 0 invariant RtOK(a.runtime) && a.runtime.scope == old(a.runtime.scope) && WFArgs(a.args) && 0 <= i && len(arr) == lastret("(*Arguments).NumOfArguments", 0) && fresh(arr)
 //@   callsite (*Arguments).Get 0 requires [slice-elements-are-the-arguments-in-order] {C14} argumentIndex == caller.i
 
 // Executing never writes through reflect into data reachable from parsed templates: the only reflect stores are the
